@@ -10,6 +10,8 @@ import PygProofs.Lemmas.TreeMerge
 import PygProofs.Lemmas.TreeHeapLemmas
 import PygProofs.Lemmas.TreeHeapAbs
 import PygProofs.Lemmas.TreeTableLemmas
+import PygProofs.Lemmas.TreeTableInv
+import PygProofs.Lemmas.TreeTableRows
 
 namespace Pyg.Props.C15
 open Pyg Pyg.Tree Pyg.DA Pyg.TreeHeap
@@ -384,52 +386,33 @@ example : (update t0 t0 []).toOption = some t0 := by decide
 example : (update t0 (.dict [("c", .cell .none), ("d", .cell .none)]) [.cell .none]).toOption =
     some (.dict [("a", .dict [("b", i 1), ("z", .dict [("q", i 5)])]), ("c", i 3), ("d", .cell .none)]) := by decide
 
-/-! ### table_to_tree / tree_to_table (partial) -/
+/-! ### table_to_tree / tree_to_table are inverse -/
 
 section table
 open Pyg.TreeTable
 
-/-- `table_tree_inverse_partial` — the COMPLETENESS half of "table_to_tree and tree_to_table with the same pattern are
-inverse on rows with unique paths", for EVERY pattern (literal and wildcard segments, at least two segments) and every
-table: if the rows bind the pattern (`rowItem` succeeds: `its` are the items `(path, leaf)` written for the rows), the paths
-are distinct and the leaves are not dicts, then `table_to_tree(None, P, rows)` returns a tree `t` in which every row's
-leaf is read back at the row's path (`tree_getitem`), and `tree_to_table(t, P)` contains, for every row, the row made of
-its item (`rowOf`: every wildcard bound to the key at its position / to the leaf).
-MISSING for the full inverse (hence `_partial`): that `tree_to_table(t, P)` contains NOTHING ELSE and each row once
-(soundness / multiplicities), and that `rowOf P (rowItem P row)` equals `row` on the names of `P` when the names are
-distinct.  Both are sampled by the implementation-level law `law-table-tree-*` and the `totable` / `totree` correspondence. -/
-theorem table_tree_inverse_partial (P : List Seg) (rows : List Row) (its : List (Path × Val))
+/-- `table_tree_inverse` — "table_to_tree and tree_to_table with the same pattern are inverse on rows with unique paths",
+direction table → tree → table, for EVERY pattern (literal and wildcard segments anywhere, repeated names allowed, at
+least two segments) and EVERY table: if the rows bind the pattern (`rowItem` succeeds: `its` are the items `(path, leaf)`
+written for the rows), the paths are distinct and the leaves are not dicts, then `table_to_tree(None, P, rows)` returns a
+tree `t` such that
+* `tree_to_table(t, P)` is, up to row order, EXACTLY the table of the rows restricted to the names of `P`
+  (`List.Perm`: nothing else comes out and every row comes out as often as it occurs — soundness and completeness;
+  `restrict` is pinned down by `restrict_spec` below);
+* every row's leaf is read back at the row's path (`tree_getitem`).
+The row order is that of `tree_items` (rows sharing a first key are grouped), hence a permutation and not an equality. -/
+theorem table_tree_inverse (P : List Seg) (rows : List Row) (its : List (Path × Val))
     (h2 : 2 ≤ P.length)
     (hits : rows.mapM (rowItem P) = .ok its)
     (hnd : (its.map (·.1)).Nodup)
     (hleaf : ∀ pv ∈ its, ∀ s, pv.2 ≠ .dict s) :
     ∃ t, toTree P rows = .ok t ∧
-      (∀ pv ∈ its, getItem (.dict t) pv.1 = .ok pv.2) ∧
-      ∀ pv ∈ its, ∀ r, rowOf P pv.1 pv.2 = some r → r ∈ toTable P (.dict t) := by
+      (toTable P (.dict t)).Perm (rows.map (restrict P)) ∧
+      (∀ pv ∈ its, getItem (.dict t) pv.1 = .ok pv.2) := by
   -- every item comes from a row: its path has `P.length - 1 ≥ 1` keys
   have hlen : ∀ pv ∈ its, pv.1.length + 1 = P.length := by
     intro pv hm
-    have key : ∀ (rows : List Row) (its : List (Path × Val)), rows.mapM (rowItem P) = .ok its →
-        ∀ pv ∈ its, ∃ row, rowItem P row = .ok pv := by
-      intro rows
-      induction rows with
-      | nil => intro its h pv hm; simp [pure, Except.pure] at h; subst h; simp at hm
-      | cons row rows ih =>
-        intro its h pv hm
-        simp only [List.mapM_cons, bind, Except.bind] at h
-        cases hx : rowItem P row with
-        | error e => simp [hx] at h
-        | ok x =>
-          simp only [hx] at h
-          cases hr : rows.mapM (rowItem P) with
-          | error e => simp [hr] at h
-          | ok its' =>
-            simp only [hr, pure, Except.pure, Except.ok.injEq] at h
-            subst h
-            rcases List.mem_cons.1 hm with rfl | hm
-            · exact ⟨row, hx⟩
-            · exact ih its' hr pv hm
-    obtain ⟨row, hrow⟩ := key rows its hits pv hm
+    obtain ⟨row, _, hrow⟩ := mem_of_mapM_ok (rowItem P) rows its hits pv hm
     exact rowItem_length P row pv hrow
   have hne : ∀ pv ∈ its, pv.1 ≠ [] := by
     intro pv hm e
@@ -442,18 +425,137 @@ theorem table_tree_inverse_partial (P : List Seg) (rows : List Row) (its : List 
     obtain ⟨x, hx, rfl⟩ := List.mem_map.1 hp
     obtain ⟨y, hy, rfl⟩ := List.mem_map.1 hq
     exact branch_of_ne _ _ (by have := hlen x hx; have := hlen y hy; omega) hpq
-  refine ⟨buildOn [] its, toTree_eq_buildOn P rows its [] hits hne, ?_, ?_⟩
-  · exact buildOn_reads_back its [] hbr hne
-  · intro pv hm r hr
-    exact toTable_complete P pv.1 _ pv.2 r (hleaf pv hm) hr (buildOn_reads_back its [] hbr hne pv hm)
+  -- the tree built has exactly the items written (up to order) and uniform depth
+  have hB := items_buildOn (P.length - 2) its [] (Uni_empty _)
+    (fun pv hm => ⟨by have := hlen pv hm; omega, hleaf pv hm⟩) (by simpa [itemsKVs] using hnd)
+  have hU : Uni (P.length - 1) (.dict (buildOn [] its)) := by
+    have e : P.length - 1 = P.length - 2 + 1 := by omega
+    rw [e]; exact hB.2
+  refine ⟨buildOn [] its, toTree_eq_buildOn P rows its [] hits hne, ?_, buildOn_reads_back its [] hbr hne⟩
+  rw [toTable_eq_filterMap P _ (by intro e; rw [e] at h2; simp at h2) hU, ← filterMap_rowOf_of_mapM P rows its hits]
+  have := hB.1
+  simp only [itemsKVs, List.nil_append] at this
+  exact this.filterMap _
 
-/-- non-vacuity: `'markets/%market/weight/%weight'` with two rows -/
+/-- (b) `rowOf P (rowItem P row) = row` on the pattern's names: the row `tree_to_table` makes of the item that
+`table_to_tree` writes for `row` is `row` restricted to the names of `P` -/
+theorem rowOf_rowItem_restrict (P : List Seg) (row : Row) (pv : Path × Val) (h : rowItem P row = .ok pv) :
+    rowOf P pv.1 pv.2 = some (restrict P row) := rowOf_rowItem P row pv h
+
+/-- what "restricted to the names of `P`" is: cell by cell the row's cell for a name of the pattern and nothing for any
+other column, no column twice; and for a pattern with distinct names the columns are the names, last wildcard first
+(the order in which `tree_to_table` updates its row dicts) -/
+theorem restrict_spec (P : List Seg) (row : Row) :
+    (∀ m, lookup m (restrict P row) = if m ∈ names P then lookup m row else none) ∧
+    ((restrict P row).map (·.1)).Nodup ∧
+    ((names P).Nodup → restrict P row = (names P).reverse.filterMap fun n => (lookup n row).map fun x => (n, x)) :=
+  ⟨fun m => restrict_lookup row m P, restrict_keys_nodup row P, restrict_eq_of_nodup row P⟩
+
+/-- the former `table_tree_inverse_partial` (completeness half), now a corollary: the row of every item written is in
+`tree_to_table(t, P)` -/
+theorem table_tree_rows_complete (P : List Seg) (rows : List Row) (its : List (Path × Val))
+    (h2 : 2 ≤ P.length) (hits : rows.mapM (rowItem P) = .ok its) (hnd : (its.map (·.1)).Nodup)
+    (hleaf : ∀ pv ∈ its, ∀ s, pv.2 ≠ .dict s) :
+    ∃ t, toTree P rows = .ok t ∧ ∀ pv ∈ its, ∀ r, rowOf P pv.1 pv.2 = some r → r ∈ toTable P (.dict t) := by
+  obtain ⟨t, ht, hp, _⟩ := table_tree_inverse P rows its h2 hits hnd hleaf
+  refine ⟨t, ht, ?_⟩
+  intro pv hm r hr
+  obtain ⟨row, hrow, hi⟩ := mem_of_mapM_ok (rowItem P) rows its hits pv hm
+  rw [rowOf_rowItem P row pv hi] at hr
+  cases hr
+  exact hp.mem_iff.2 (List.mem_map.2 ⟨row, hrow, rfl⟩)
+
+/-- non-vacuity: `'markets/%market/weight/%weight'` with two rows (columns in a different order, an extra column) -/
 private def exP : List Seg := [.lit "markets", .wild "market", .lit "weight", .wild "weight"]
 private def exRows : List Row :=
-  [[("market", .cell (.str "TY")), ("weight", .cell (.int 3))], [("weight", .cell (.int 7)), ("market", .cell (.str "ES"))]]
+  [[("market", .cell (.str "TY")), ("weight", .cell (.int 3)), ("zzz", .cell .none)],
+   [("weight", .cell (.int 7)), ("market", .cell (.str "ES"))]]
 example : exRows.mapM (rowItem exP) = .ok [(["markets", "TY", "weight"], .cell (.int 3)), (["markets", "ES", "weight"], .cell (.int 7))] := rfl
 example : rowOf exP ["markets", "ES", "weight"] (.cell (.int 7)) = some [("weight", .cell (.int 7)), ("market", .cell (.str "ES"))] := rfl
 example : toTree exP exRows = .ok [("markets", .dict [("TY", .dict [("weight", .cell (.int 3))]), ("ES", .dict [("weight", .cell (.int 7))])])] := rfl
+example : exRows.map (restrict exP) = [[("weight", .cell (.int 3)), ("market", .cell (.str "TY"))],
+    [("weight", .cell (.int 7)), ("market", .cell (.str "ES"))]] := rfl
+
+/-- the hypothesis "distinct paths" is needed: two rows with one path, the later leaf overwrites the earlier -/
+theorem table_tree_inverse_dup_path_false :
+    let P : List Seg := [.wild "a", .wild "b"]
+    let rows : List Row := [[("a", .cell (.str "x")), ("b", .cell (.int 1))], [("a", .cell (.str "x")), ("b", .cell (.int 2))]]
+    (toTree P rows).map (fun t => toTable P (.dict t)) = .ok [[("b", .cell (.int 2)), ("a", .cell (.str "x"))]] := rfl
+
+/-- the hypothesis "leaves are not dicts" is needed: a dict leaf is a branch for `tree_to_table`, the last wildcard
+then binds its KEYS -/
+theorem table_tree_inverse_dict_leaf_false :
+    let P : List Seg := [.wild "a", .wild "b"]
+    let rows : List Row := [[("a", .cell (.str "x")), ("b", .dict [("k", .cell (.int 1))])]]
+    (toTree P rows).map (fun t => toTable P (.dict t)) = .ok [[("b", .cell (.str "k")), ("a", .cell (.str "x"))]] := rfl
+
+/-- `tree_table_inverse` — the other direction, tree → table → tree, for EVERY pattern of at least two segments with
+distinct names and EVERY tree (a dict) with distinct keys in every branch, no empty branch below the root, ALL of whose
+items match the pattern (`rowOf` is defined on them): `table_to_tree(None, P, tree_to_table(t, P)) == t` (same key
+order).  Each hypothesis is needed: see the three `…_false` witnesses below. -/
+theorem tree_table_inverse (P : List Seg) (kvs : List (String × Val))
+    (h2 : 2 ≤ P.length) (hn : (names P).Nodup)
+    (hw : wf (.dict kvs) = true) (hne : noEmpty (.dict kvs) = true)
+    (hm : ∀ pv ∈ items (.dict kvs), (rowOf P pv.1 pv.2).isSome = true) :
+    toTree P (toTable P (.dict kvs)) = .ok kvs := by
+  have hlen : ∀ pv ∈ items (.dict kvs), pv.1.length = P.length - 1 := by
+    intro pv hpv
+    have := hm pv hpv
+    cases hr : rowOf P pv.1 pv.2 with
+    | none => simp [hr] at this
+    | some r => have := rowOf_length P pv.1 pv.2 r hr; omega
+  have hU : Uni (P.length - 1) (.dict kvs) :=
+    Uni_of_items (P.length - 1) (.dict kvs) hw hne hlen (fun e => by omega)
+  have hP : P ≠ [] := by intro e; rw [e] at h2; simp at h2
+  rw [toTable_eq_filterMap P _ hP hU]
+  -- the rows, mapped back, are the items of the tree in `tree_items` order
+  have hmap : ((items (.dict kvs)).filterMap fun pv => rowOf P pv.1 pv.2).mapM (rowItem P) = .ok (items (.dict kvs)) := by
+    apply mapM_filterMap_inv
+    intro pv hpv
+    cases hr : rowOf P pv.1 pv.2 with
+    | none => have := hm pv hpv; simp [hr] at this
+    | some r => exact ⟨r, rfl, rowItem_rowOf P pv.1 pv.2 r hn hr⟩
+  have hne' : ∀ pv ∈ items (.dict kvs), pv.1 ≠ [] := fun pv hpv => itemsKVs_path_ne kvs pv (by simpa [items] using hpv)
+  have h1 := toTree_eq_buildOn P _ (items (.dict kvs)) [] hmap hne'
+  simp only [toTree]
+  rw [h1]
+  -- … and folding the items of a tree into the empty tree rebuilds it (`items_roundtrip`)
+  have h3 := items_roundtrip kvs [] hw hne
+  have hnd := items_nodup (.dict kvs) hw
+  have hemp := itemsKVs_any_empty kvs
+  simp only [items] at hnd
+  simp only [itemsToTree, items, hnd, not_true_eq_false, if_false, hemp, Bool.false_eq_true, pure, Except.pure,
+    Except.ok.injEq] at h3
+  simp only [items, buildOn]
+  rw [h3]
+
+/-- non-vacuity of `tree_table_inverse` -/
+private def exT : List (String × Val) :=
+  [("markets", .dict [("TY", .dict [("weight", .cell (.int 3))]), ("ES", .dict [("weight", .cell (.int 7))])])]
+example : wf (.dict exT) = true ∧ noEmpty (.dict exT) = true ∧ (names exP).Nodup ∧
+    ∀ pv ∈ items (.dict exT), (rowOf exP pv.1 pv.2).isSome = true := by decide
+example : toTree exP (toTable exP (.dict exT)) = .ok exT := rfl
+
+/-- "all items match" is needed: a sibling key that does not match the literal is lost
+(`{'a': 1, 'b': 2}` with `'a/%x'` comes back as `{'a': 1}`) -/
+theorem tree_table_inverse_sibling_false :
+    let P : List Seg := [.lit "a", .wild "x"]
+    toTree P (toTable P (.dict [("a", .cell (.int 1)), ("b", .cell (.int 2))])) = .ok [("a", .cell (.int 1))] := rfl
+
+/-- "distinct names" is needed: with `'%a/%a/%b'` the item `x/y/1` has a row (`rowOf` is defined: the outer key wins the
+column `a`), but that row is written back at `x/x` -/
+theorem tree_table_inverse_dup_names_false :
+    (∀ pv ∈ items (.dict [("x", .dict [("y", .cell (.int 1))])]),
+      (rowOf [.wild "a", .wild "a", .wild "b"] pv.1 pv.2).isSome = true) ∧
+    toTree [.wild "a", .wild "a", .wild "b"] (toTable [.wild "a", .wild "a", .wild "b"]
+      (.dict [("x", .dict [("y", .cell (.int 1))])])) = .ok [("x", .dict [("x", .cell (.int 1))])] := by
+  refine ⟨?_, rfl⟩
+  decide
+
+/-- "no empty branch" is needed: an empty branch has no items, hence no rows -/
+theorem tree_table_inverse_empty_branch_false :
+    let P : List Seg := [.wild "a", .wild "b"]
+    toTree P (toTable P (.dict [("x", .dict [])])) = .ok [] := rfl
 
 end table
 
